@@ -499,11 +499,13 @@ Definition ft_mark_notarized (t : ftracker) (b : blockid) : ftres :=
   else
     let old := alookup (fst b) (ft_status t) in
     let t1 := ft_set_status t (fst b) (FNotarized (snd b)) in
+    (* current tree ("fix: keep decided finalization status"): a decided status is restored *)
     match old with
     | None => Some (t1, fe_empty)
-    | Some (FNotarized h) | Some (FFinalized h) | Some (FImplFinalized h) =>
-      if h =? snd b then Some (t1, fe_empty) else None
-    | Some FImplSkipped => Some (t1, fe_empty)
+    | Some (FNotarized h) => if h =? snd b then Some (t1, fe_empty) else None
+    | Some (FFinalized h) => if h =? snd b then Some (ft_set_status t1 (fst b) (FFinalized h), fe_empty) else None
+    | Some (FImplFinalized h) => if h =? snd b then Some (ft_set_status t1 (fst b) (FImplFinalized h), fe_empty) else None
+    | Some FImplSkipped => Some (ft_set_status t1 (fst b) FImplSkipped, fe_empty)
     | Some FFinalPendingNotar =>
       ft_handle_finalized_block (ft_set_status t1 (fst b) (FFinalized (snd b))) b fe_empty
     end.
@@ -515,7 +517,9 @@ Definition ft_mark_finalized (t : ftracker) (s : slot) : ftres :=
     let t1 := ft_set_status t s FFinalPendingNotar in
     match old with
     | None => Some (t1, fe_empty)
-    | Some FFinalPendingNotar | Some (FFinalized _) | Some (FImplFinalized _) => Some (t1, fe_empty)
+    | Some FFinalPendingNotar => Some (t1, fe_empty)
+    | Some (FFinalized h) => Some (ft_set_status t1 s (FFinalized h), fe_empty)
+    | Some (FImplFinalized h) => Some (ft_set_status t1 s (FImplFinalized h), fe_empty)
     | Some (FNotarized h) => ft_handle_finalized_block (ft_set_status t1 s (FFinalized h)) (s, h) fe_empty
     | Some FImplSkipped => None
     end.
@@ -829,17 +833,20 @@ Definition pool_add_vote_gen (store_first : bool) (e : epoch) (p : pool) (vt : v
     end.
 Definition pool_add_vote := pool_add_vote_gen true.
 
+(* current tree ("fix: prune after block registration ..."): blocks of decided slots are ignored,
+   and the finalization caused by a parent registration prunes like every other finalization *)
 Definition pool_add_block (e : epoch) (p : pool) (b par : blockid) : pool * presult * pout :=
   if negb (fst par <? fst b) then (panicked p, RPanic, po_empty)
+  else if fst b <? first_unpruned p then (p, RVerdict VNone, po_empty)
   else
     match ft_add_parent (p_ft p) b par with
     | None => (panicked p, RPanic, po_empty)
     | Some (t, ev) =>
-      match pt_handle_finalization (p_prt p) ev with
+      match pool_handle_finalization (pool_with_ft p t) ev with
       | None => (panicked p, RPanic, po_empty)
-      | Some (prt, prs, wk) =>
-        let p1 := mkPool (p_slots p) prt t (p_waiting p) (p_panicked p) in
-        let o1 := mkPO (wk ++ pr_events prs) [] in
+      | Some (p1, o1) =>
+        if fst b <? first_unpruned p1 then (p1, RVerdict VNone, o1)
+        else
         let p2 := p_set_ss p1 (fst b) (notify_parent_known (p_ss p1 (fst b)) (snd b)) in
         let parent_certified :=
           match alookup (fst par) (p_slots p2) with
